@@ -73,6 +73,12 @@ type flushBuf struct{ bytes.Buffer }
 
 func (*flushBuf) Flush() error { return nil }
 
+// a by-value struct as the FIRST field of a struct reached through a pointer (the two share their address)
+type badFirst struct {
+	S badChanField
+	N int32
+}
+
 type namedHandle uintptr
 type namedSig chan int
 type namedCb func()
@@ -90,6 +96,7 @@ var unsupportedKinds = []string{"named uintptr", "named chan", "named func", "na
 	"struct{chan}", "*struct{chan}", "struct{func}", "struct{[]complex128}", "struct{map[string]func}", "struct{*struct{chan}}", "[]chan", "struct{[]chan}", "map[string]chan", "[]interface{}{chan}",
 	// a Go int beyond the 32 bits of the wire type chosen for its kind: not representable as that type. The call
 	// fails, or (should the library choose a wider form) carries the number - see carriedOrFails
+	"*struct{first field: struct{chan}}", "instance of the 17th class{chan}", "int in [2^31, 2^32)", "[]int{.., in [2^31, 2^32)}", "struct{int in [-2^32, -2^31)}",
 	"anonymous struct{chan}", "*anonymous struct{func}", "[]interface{}{anonymous struct{complex}}",
 	"struct{Évent chan}", "struct{Ωmega func; Ärger complex128}", "struct{time.Time; chan}", "*struct{struct{time.Time; chan}}",
 	"int beyond 32 bits", "negative int beyond 32 bits", "[]int{.., beyond 32 bits, ..}", "map[string]int{beyond 32 bits}", "struct{int beyond 32 bits}"}
@@ -111,7 +118,7 @@ func carriedOrFails(b []byte) string {
 	}
 	found := false
 	av.Walk(a, func(x *av.V) {
-		if (x.K == av.Long || x.K == av.Int) && (x.I == c13Big || x.I == -c13Big) {
+		if (x.K == av.Long || x.K == av.Int) && (x.I == c13Big || x.I == -c13Big || x.I == 3000000000 || x.I == -3000000000) {
 			found = true
 		}
 	})
@@ -171,6 +178,17 @@ func unsupportedValue(kind string) interface{} {
 		return map[string]chan int{"c": make(chan int)}
 	case "[]interface{}{chan}":
 		return []interface{}{int32(1), make(chan int), int32(3)}
+	case "*struct{first field: struct{chan}}":
+		return &badFirst{S: badChanField{A: 1, C: make(chan int), B: "b"}, N: 2}
+	case "instance of the 17th class{chan}":
+		l := zoo.ManyClasses(16)[:16]
+		return append(append([]interface{}{}, l...), &badChanField{A: 1, C: make(chan int)})
+	case "int in [2^31, 2^32)":
+		return int(3000000000)
+	case "[]int{.., in [2^31, 2^32)}":
+		return []int{1, 3000000000, 3}
+	case "struct{int in [-2^32, -2^31)}":
+		return &bigIntField{A: 1, N: -3000000000, B: "b"}
 	case "anonymous struct{chan}":
 		return struct {
 			A int32
@@ -385,7 +403,7 @@ func TestC13(t *testing.T) {
 	r := rec.For("C13")
 	// ---- top level and static carriers, every kind (fixed part)
 	for _, k := range unsupportedKinds {
-		if msg := mustFail(unsupportedValue(k), nil, strings.Contains(k, "beyond 32 bits")); msg != "" {
+		if msg := mustFail(unsupportedValue(k), nil, (strings.Contains(k, "beyond 32 bits") || strings.Contains(k, "2^31"))); msg != "" {
 			directFail(t, "C13", map[string]interface{}{"kind": k, "position": "top level"}, "C13 top-level %s: %s", k, msg)
 		}
 		r.Eval()
@@ -478,7 +496,7 @@ func TestC13(t *testing.T) {
 				if restore == nil {
 					continue // unhashable as a map key
 				}
-				msg := mustFail(target, copyNames(nm), strings.Contains(k, "beyond 32 bits"))
+				msg := mustFail(target, copyNames(nm), (strings.Contains(k, "beyond 32 bits") || strings.Contains(k, "2^31")))
 				restore()
 				r.Eval()
 				r.NonTrivial(h ^ uint64(si)<<20 ^ uint64(ki)<<4)
